@@ -5,6 +5,8 @@ use vstd::prelude::*;
 use std::cmp::{max, min};
 use std::io::{Read, Seek};
 use std::marker::PhantomData;
+use std::collections::BTreeMap;
+use vstd::std_specs::btree::{maps_borrowed_key_to_value, contains_borrowed_key, borrowed_key_ordering_matches};
 
 verus! {
 
@@ -43,6 +45,18 @@ pub struct VbaProject { _opaque: u8 }
 //@@ item src/xlsx/mod.rs type Tables
 //@@ item src/xlsx/mod.rs struct Xlsx cfg_off=picture
 //@@ item src/xlsx/mod.rs struct XlsxOptions
+//@@ item src/xlsb/mod.rs enum XlsbError
+//@@ item src/xlsb/mod.rs struct XlsbOptions
+//@@ item src/xlsb/mod.rs struct Xlsb cfg_off=picture
+//@@ item src/xls.rs enum XlsError cfg_off=picture
+//@@ item src/xls.rs struct XlsOptions
+//@@ item src/xls.rs struct SheetData
+//@@ item src/xls.rs struct Xls cfg_off=picture
+//@@ item src/ods.rs enum OdsError
+//@@ item src/ods.rs struct OdsOptions
+//@@ item src/ods.rs struct Ods cfg_off=picture
+impl CellType for String {}
+#[verifier::external_type_specification] #[verifier::external_body] pub struct ExParseBoolError(std::str::ParseBoolError);
 
 // TRUSTED: `#[derive(Clone)]` / `#[derive(Default)]` + `#[default] Empty` on Data and DataRef: the clone equals the original, the default
 // value is `Empty` (Verus adds no specification to these derives by itself: "autoderive Clone impl does not take the form Verus expects")
@@ -451,6 +465,92 @@ proof fn lemma_lazy_cells_sorted<T: CellType>(hr: HeaderRow, cs: Seq<Cell<T>>)
     }
 }
 
+
+/// C07 "converted cell-by-cell": DataRef -> Data keeps the variant and the payload; SharedString(s) becomes String(s)
+pub open spec fn to_data<'a>(value: DataRef<'a>) -> Data {
+    match value {
+        DataRef::Int(v) => Data::Int(v),
+        DataRef::Float(v) => Data::Float(v),
+        DataRef::String(v) => Data::String(v),
+        DataRef::SharedString(v) => Data::String(<String as vstd::std_specs::convert::FromSpec<&str>>::from_spec(v)),
+        DataRef::Bool(v) => Data::Bool(v),
+        DataRef::DateTime(v) => Data::DateTime(v),
+        DataRef::DateTimeIso(v) => Data::DateTimeIso(v),
+        DataRef::DurationIso(v) => Data::DurationIso(v),
+        DataRef::Error(v) => Data::Error(v),
+        DataRef::Empty => Data::Empty,
+    }
+}
+/// vstd's specification hook of the From trait (`x.into()` / `Data::from(x)` yield from_spec(x))
+impl<'a> vstd::std_specs::convert::FromSpecImpl<DataRef<'a>> for Data {
+    open spec fn obeys_from_spec() -> bool { true }
+    open spec fn from_spec(value: DataRef<'a>) -> Data { to_data(value) }
+}
+// TRUSTED: `String::from(&str)` / `<&str as Into<String>>::into` copies the characters (std: "Converts a &str into a String. The result is
+// allocated on the heap"); vstd has no specification for this instance.
+#[verifier::external_body]
+pub proof fn axiom_string_from_str()
+    ensures
+        <String as vstd::std_specs::convert::FromSpec<&str>>::obeys_from_spec(),
+        forall|s: &str| (#[trigger] <String as vstd::std_specs::convert::FromSpec<&str>>::from_spec(s))@ == s@,
+{}
+
+//@@ impl src/datatype.rs "From<DataRef<'a>> for Data"
+//@@ fn src/datatype.rs "From<DataRef<'a>> for Data::from" props=C07 ret=d
+//@@ sig
+    ensures
+        //# C07.dataref_to_data_variant_preserving
+        d == to_data(value),
+        //# C07.shared_string_becomes_string
+        value is SharedString ==> d is String && d->String_0@ == value->SharedString_0@,
+//@@ body
+        proof { axiom_string_from_str(); }
+//@@ end
+//@@ endimpl
+
+pub open spec fn data_seq(v: &Vec<Data>) -> Seq<Data> { v@ }
+/// `d` is `g` converted cell by cell: identical bounds, inner == map(From::from, g.inner)
+pub closed spec fn converted<'a>(d: Range<Data>, g: Range<DataRef<'a>>) -> bool {
+    &&& d.start == g.start && d.end == g.end
+    &&& d.inner@.len() == g.inner@.len()
+    &&& forall|i: int| 0 <= i < g.inner@.len() ==> #[trigger] d.inner@[i] == to_data(g.inner@[i])
+}
+pub open spec fn converted_result<'a, E>(r: Result<Range<Data>, E>, rr: Result<Range<DataRef<'a>>, E>) -> bool {
+    match rr { Ok(g) => r is Ok && converted(r->Ok_0, g), Err(e) => r is Err && r->Err_0 == e }
+}
+//@@ props C07
+/// what `converted` means on the abstract view: same rectangle, every position holds the converted value
+pub proof fn lemma_converted_view<'a>(d: Range<Data>, g: Range<DataRef<'a>>)
+    requires converted(d, g), g.wf(),
+    ensures
+        //# C07.converted_same_bounds
+        d.wf() && d.nonempty() == g.nonempty() && d.lo() == g.lo() && d.hi() == g.hi(),
+        //# C07.converted_same_cells
+        forall|r: int, c: int| #[trigger] g.has(r, c) ==> d.has(r, c) && d.at(r, c) == to_data(g.at(r, c)),
+        //# C07.converted_absent_is_empty
+        forall|r: int, c: int| #[trigger] d.val_at(r, c) == to_data(g.val_at(r, c)),
+{
+    lemma_lawful_cells();
+    assert forall|r: int, c: int| #[trigger] g.has(r, c) implies d.has(r, c) && d.at(r, c) == to_data(g.at(r, c)) by {
+        let i = r - g.start.0; let j = c - g.start.1;
+        assert(0 <= i * g.w() + j < g.h() * g.w()) by (nonlinear_arith) requires 0 <= i < g.h(), 0 <= j < g.w();
+    }
+    assert forall|r: int, c: int| #[trigger] d.val_at(r, c) == to_data(g.val_at(r, c)) by {
+        if g.has(r, c) {} else { assert(!d.has(r, c)); }
+    }
+}
+//@@ props C08,C07,C01,C03,C06
+
+/// What a lazy reader must return for the sheet source `src` under option `hr` (C08 / C01 / C03 / C07); `naw`: the open error says the
+/// part is not a worksheet (xlsx chart sheets: empty range instead of an error; never for xlsb).
+pub open spec fn lazy_result_ok<T: CellType, E>(src: LazySrc<Cell<T>, E>, naw: bool, hr: HeaderRow, r: Result<Range<T>, E>) -> bool {
+    match src {
+        LazySrc::OpenErr(e) => if naw { r is Ok && r->Ok_0.wf() && !r->Ok_0.nonempty() } else { r is Err && r->Err_0 == e },
+        LazySrc::Stream { cells, end: Some(e), dims } => r is Err && r->Err_0 == e,
+        LazySrc::Stream { cells, end: None, dims } => r is Ok && (rows_mono(cells) ==> sparse_of(r->Ok_0, lazy_cells(hr, cells))),
+    }
+}
+
 // =====================================================================================================================
 // Stand-ins for the cell readers and the reader traits
 // =====================================================================================================================
@@ -500,6 +600,10 @@ impl<RS> Xlsx<RS> {
     }
     /// what `worksheet_cells_reader(name)` makes of the workbook (zip lookup + XML prologue of the sheet part): not modelled further
     pub uninterp spec fn sheet_src<'a>(&self, name: Seq<char>) -> LazySrc<Cell<DataRef<'a>>, XlsxError>;
+    /// the open error is XlsxError::NotAWorksheet (chart sheet, dialog sheet ...)
+    pub open spec fn naw(&self, name: Seq<char>) -> bool {
+        self.sheet_src(name) is OpenErr && self.sheet_src(name)->OpenErr_0 is NotAWorksheet
+    }
     /// `name` is one of the sheets listed in workbook.xml
     pub closed spec fn knows(&self, name: Seq<char>) -> bool { exists|i: int| 0 <= i < self.sheets@.len() && (#[trigger] self.sheets@[i]).0@ == name }
 }
@@ -526,8 +630,12 @@ where
     RS: Read + Seek,
 {
     type Error;
+    /// (spec only, not in the real trait) representation invariant a constructed reader satisfies; trait-impl methods cannot carry their
+    /// own `requires` in Verus, so the precondition of the eager `worksheet_range` (stored ranges are well-formed) is routed through here
+    spec fn inv(&self) -> bool;
     fn with_header_row(&mut self, header_row: HeaderRow) -> &mut Self;
-    fn worksheet_range(&mut self, name: &str) -> Result<Range<Data>, Self::Error>;
+    fn worksheet_range(&mut self, name: &str) -> Result<Range<Data>, Self::Error>
+        requires old(self).inv();
 }
 pub trait ReaderRef<RS>: Reader<RS>
 where
@@ -576,9 +684,27 @@ proof fn lemma_u32_product(a: int, b: int)
         //# C07,C08.with_header_row_returns_self
         *final(r) == *final(self),
 //@@ end
-    // stand-in so that the reduced trait is implemented; the real worksheet_range is under contract below (inherent-method rule)
-    #[verifier::external_body]
-    fn worksheet_range(&mut self, name: &str) -> Result<Range<Data>, XlsxError> { unimplemented!() }
+    open spec fn inv(&self) -> bool { true }
+//@@ fn src/xlsx/mod.rs "Reader<RS> for Xlsx<RS>::worksheet_range" props=C07 entry ret=r
+//@@ sig
+    ensures
+        //# C07.range_is_converted_ref
+        exists|rr: Result<Range<DataRef<'static>>, XlsxError>|
+            #[trigger] lazy_result_ok(old(self).sheet_src(name@), old(self).naw(name@), old(self).hr(), rr) && converted_result(r, rr),
+//@@ closure 0
+    -> (res: Data) ensures res == to_data(v)
+//@@ before /Ok\(Range \{/
+        proof {
+            let iv = data_seq(&inner);   // (also tells rustc the type of `inner`, which the source leaves to the struct literal below)
+            assert(iv.len() == rge.inner@.len());
+            assert(forall|i: int| 0 <= i < iv.len() ==> iv[i] == to_data(rge.inner@[i]));
+            let d = Range { start: rge.start, end: rge.end, inner: inner };
+            assert(converted(d, rge));
+            let rr: Result<Range<DataRef<'static>>, XlsxError> = Ok(rge);
+            assert(lazy_result_ok(old(self).sheet_src(name@), old(self).naw(name@), old(self).hr(), rr));
+            assert(converted_result(Ok::<Range<Data>, XlsxError>(d), rr));
+        }
+//@@ end
 //@@ endimpl
 
 //@@ impl src/xlsx/mod.rs "ReaderRef<RS> for Xlsx<RS>"
@@ -596,6 +722,8 @@ proof fn lemma_u32_product(a: int, b: int)
         //# C08,C01.lazy_filter
         ({ let src = old(self).sheet_src(name@); src is Stream && src->end is None ==>
             r is Ok && (rows_mono(src->cells) ==> sparse_of(r->Ok_0, lazy_cells(old(self).hr(), src->cells))) }),
+        //# C07.lazy_result_bundle
+        lazy_result_ok(old(self).sheet_src(name@), old(self).naw(name@), old(self).hr(), r),
 //@@ before /let len = /
         let ghost stream = cell_reader.remaining();
         proof { lemma_lawful_cells(); }
@@ -664,6 +792,152 @@ proof fn lemma_u32_product(a: int, b: int)
             assert(cells@ == lazy_cells(header_row, stream));
             if rows_mono(stream) { lemma_lazy_cells_sorted(header_row, stream); }
         }
+//@@ end
+//@@ endimpl
+
+
+// =====================================================================================================================
+// Eager formats (xls, ods): the sheet is stored as a Range; Row(n) takes a window of it
+// =====================================================================================================================
+// TRUSTED: `String` keys looked up by `&str` (std: "`Borrow<str> for String`: Eq, Ord and Hash are equivalent for borrowed and owned
+// values"; String's Ord is the lawful lexicographic order) -- vstd leaves both predicates uninterpreted for String/str -- and a map holds
+// at most one value per key, which it does contain.
+#[verifier::external_body]
+pub proof fn axiom_string_keyed_map<V>(m: Map<String, V>, k: &str)
+    ensures
+        vstd::laws_cmp::obeys_cmp::<String>(),
+        borrowed_key_ordering_matches::<String, str>(),
+        forall|v1: V, v2: V| maps_borrowed_key_to_value(m, k, v1) && maps_borrowed_key_to_value(m, k, v2) ==> v1 == v2,
+        forall|v: V| maps_borrowed_key_to_value(m, k, v) ==> contains_borrowed_key(m, k),
+{}
+/// the value stored under `name`, if any
+pub open spec fn named<V>(m: Map<String, V>, name: &str) -> Option<V> {
+    if exists|v: V| maps_borrowed_key_to_value(m, name, v) { Some(choose|v: V| maps_borrowed_key_to_value(m, name, v)) } else { None }
+}
+// TRUSTED: blanket `impl<T: Clone> ToOwned for T` -- "to_owned() is clone()"
+pub assume_specification<T: Clone>[ <T as std::borrow::ToOwned>::to_owned ](s: &T) -> (r: T)
+    ensures call_ensures(T::clone, (s,), r);
+
+/// the range an eager reader must return for the stored sheet range `sheet` (property C08; `None`: nothing acceptable exists -- cannot happen)
+pub open spec fn eager_result_ok(hr: HeaderRow, sheet: Range<Data>, r: Range<Data>) -> bool {
+    match hr {
+        HeaderRow::FirstNonEmptyRow => r == sheet,
+        HeaderRow::Row(n) =>
+            if !sheet.nonempty() { r == sheet }
+            else if n <= sheet.hi().0 { window_of(r, sheet, (n, sheet.lo().1), sheet.hi()) }
+            else { r.wf() && !r.nonempty() },   // no cell at or below row n: "otherwise it is empty"
+    }
+}
+
+//@@ props C08
+/// what the window means in the words of the property
+pub proof fn eager_header_row_lemma<T: CellType>(sheet: Range<T>, n: u32, w: Range<T>)
+    requires
+        lawful::<T>(), sheet.wf(), sheet.nonempty(), n <= sheet.hi().0,
+        window_of(w, sheet, (n, sheet.lo().1), sheet.hi()),
+    ensures
+        //# C08.eager_header_row_starts_at_n
+        w.nonempty() && w.lo().0 == n,
+        //# C08.eager_header_row_same_values_from_n_on
+        forall|r: int, c: int| r >= n ==> #[trigger] w.val_at(r, c) == sheet.val_at(r, c),
+        //# C08.eager_header_row_nothing_above_n
+        forall|r: int, c: int| #[trigger] w.has(r, c) ==> r >= n,
+{
+    assert forall|r: int, c: int| r >= n implies #[trigger] w.val_at(r, c) == sheet.val_at(r, c) by {
+        if w.has(r, c) {
+            if sheet.has(r, c) {} else {}
+        } else {
+            assert(!sheet.has(r, c));
+        }
+    }
+}
+//@@ props C08,C07,C01,C03,C06
+
+impl<RS> Xls<RS> {
+    pub closed spec fn hr(&self) -> HeaderRow { self.options.header_row }
+    pub closed spec fn rest(&self) -> (BTreeMap<String, SheetData>, Option<VbaProject>, Metadata, PhantomData<RS>, Option<u16>, Vec<CellFormat>, bool) {
+        (self.sheets, self.vba, self.metadata, self.marker, self.options.force_codepage, self.formats, self.is_1904)
+    }
+    /// the stored range of the sheet called `name`
+    pub closed spec fn sheet_range(&self, name: &str) -> Option<Range<Data>> {
+        match named(self.sheets@, name) { Some(sd) => Some(sd.range), None => None }
+    }
+    pub closed spec fn ranges_wf(&self) -> bool {
+        forall|name: &str, sd: SheetData| #[trigger] maps_borrowed_key_to_value(self.sheets@, name, sd) ==> sd.range.wf()
+    }
+}
+impl<RS> Ods<RS> {
+    pub closed spec fn hr(&self) -> HeaderRow { self.options.header_row }
+    pub closed spec fn rest(&self) -> (BTreeMap<String, (Range<Data>, Range<String>)>, Metadata, PhantomData<RS>) {
+        (self.sheets, self.metadata, self.marker)
+    }
+    pub closed spec fn sheet_range(&self, name: &str) -> Option<Range<Data>> {
+        match named(self.sheets@, name) { Some(sd) => Some(sd.0), None => None }
+    }
+    pub closed spec fn ranges_wf(&self) -> bool {
+        forall|name: &str, sd: (Range<Data>, Range<String>)| #[trigger] maps_borrowed_key_to_value(self.sheets@, name, sd) ==> sd.0.wf()
+    }
+}
+
+//@@ impl src/xls.rs "Reader<RS> for Xls<RS>"
+//@@ item src/xls.rs impl_type "Reader<RS> for Xls<RS>::type Error"
+    /// stored sheet ranges are well-formed (they are built by Range::from_sparse / Range::new, whose contracts ensure wf: unit range)
+    open spec fn inv(&self) -> bool { self.ranges_wf() }
+//@@ fn src/xls.rs "Reader<RS> for Xls<RS>::with_header_row" props=C07,C08 ret=r
+//@@ sig
+    ensures
+        //# C07,C08.with_header_row_sets_option
+        r.hr() == header_row,
+        //# C07,C08.with_header_row_frame
+        r.rest() == old(self).rest(),
+        //# C07,C08.with_header_row_returns_self
+        *final(r) == *final(self),
+//@@ end
+//@@ fn src/xls.rs "Reader<RS> for Xls<RS>::worksheet_range" props=C08,C07 ret=r
+//@@ sig
+    ensures
+        //# C07.eager_read_is_pure
+        *final(self) == *old(self),
+        //# C07.eager_unknown_sheet_is_error
+        old(self).sheet_range(name) is None ==> r is Err && r->Err_0 is WorksheetNotFound,
+        //# C08.eager_window
+        old(self).sheet_range(name) is Some ==> r is Ok && eager_result_ok(old(self).hr(), old(self).sheet_range(name)->Some_0, r->Ok_0),
+//@@ body
+        proof { axiom_string_keyed_map(self.sheets@, name); lemma_lawful_cells(); }
+//@@ closure 0
+    -> (res: Range<Data>) ensures res == r.range
+//@@ closure 1
+    -> (res: XlsError) ensures res is WorksheetNotFound
+//@@ end
+//@@ endimpl
+
+//@@ impl src/ods.rs "Reader<RS> for Ods<RS>"
+//@@ item src/ods.rs impl_type "Reader<RS> for Ods<RS>::type Error"
+    /// stored sheet ranges are well-formed (built by Range::from_sparse: unit range / unit ods)
+    open spec fn inv(&self) -> bool { self.ranges_wf() }
+//@@ fn src/ods.rs "Reader<RS> for Ods<RS>::with_header_row" props=C07,C08 ret=r
+//@@ sig
+    ensures
+        //# C07,C08.with_header_row_sets_option
+        r.hr() == header_row,
+        //# C07,C08.with_header_row_frame
+        r.rest() == old(self).rest(),
+        //# C07,C08.with_header_row_returns_self
+        *final(r) == *final(self),
+//@@ end
+//@@ fn src/ods.rs "Reader<RS> for Ods<RS>::worksheet_range" props=C08,C07 ret=r
+//@@ sig
+    ensures
+        //# C07.eager_read_is_pure
+        *final(self) == *old(self),
+        //# C07.eager_unknown_sheet_is_error
+        old(self).sheet_range(name) is None ==> r is Err && r->Err_0 is WorksheetNotFound,
+        //# C08.eager_window
+        old(self).sheet_range(name) is Some ==> r is Ok && eager_result_ok(old(self).hr(), old(self).sheet_range(name)->Some_0, r->Ok_0),
+//@@ body
+        proof { axiom_string_keyed_map(self.sheets@, name); lemma_lawful_cells(); }
+//@@ closure 0
+    -> (res: OdsError) ensures res is WorksheetNotFound
 //@@ end
 //@@ endimpl
 
